@@ -4,7 +4,7 @@ Ops are plain tuples (picklable, JSON-able => replayable):
   ("write", disk, path, size, v[, nsec])   create / overwrite with deterministic bytes gen(path:size:v)
   ("rm", disk, path) ("mv", d, p, d2, p2) ("cp", d, p, d2, p2) ("touch", d, p, v)
   ("append", d, p, k) ("trunc", d, p, size) ("symlink", d, p, target) ("hardlink", d, p, target_path)
-  ("mkdir", d, p) ("rmdir", d, p)
+  ("mkdir", d, p) ("rmdir", d, p) ("silent", d, p, offset)
   ("cmd", name, arg...)                   a snapraid command, e.g. ("cmd", "sync", "-B", "1")
   ("clock", delta)                        advance the frozen clock
 """
@@ -51,6 +51,20 @@ def apply_op(lab, op, **runkw):
         if _isreg(lab, op[1], op[2]):
             data = lab.read(op[1], op[2])
             lab.write(op[3], op[4], data, file_mtime_ns(op[4], len(data), 77))
+    elif k == "silent":
+        # silent corruption: one byte changes in place (same inode, size and time-stamp); op = ("silent", disk, path, offset) with a
+        # negative offset counted from the end
+        if _isreg(lab, op[1], op[2]):
+            fp = lab.p(op[1], op[2])
+            st = os.lstat(fp)
+            if st.st_size:
+                off = op[3] % st.st_size
+                with open(fp, "r+b") as f:
+                    f.seek(off)
+                    b = f.read(1)
+                    f.seek(off)
+                    f.write(bytes([b[0] ^ 0x5a]))
+                os.utime(fp, ns=(st.st_mtime_ns, st.st_mtime_ns))
     elif k == "touch":
         if _isreg(lab, op[1], op[2]):
             st = os.lstat(lab.p(op[1], op[2]))
@@ -115,6 +129,24 @@ def canon(lab, with_content=True):
                 items.append((rel, "content", hashlib.blake2b(repr(c.model()).encode(), digest_size=8).hexdigest()))
             except C.ContentError:
                 items.append((rel, "raw", hashlib.blake2b(e[3] or b"", digest_size=8).hexdigest()))
+    if getattr(lab.cfg, "uuid", False):
+        # persistent inodes are observable by the tool: the numbers themselves are not part of the state, but the relation "this
+        # file on disk carries the inode recorded for that path" is (it decides between equal / moved / restored)
+        try:
+            c = lab.content()
+        except Exception:
+            c = None
+        if c is not None:
+            for dn in lab.cfg.disknames[:2]:
+                d = c.disks.get(dn.encode())
+                owner = {f.inode: f.sub for f in d.files} if d else {}
+                for rel, e in sorted(snap.items()):
+                    if e[0] == "f" and rel.startswith(dn + "/"):
+                        try:
+                            ino = os.lstat(lab.p(rel)).st_ino
+                        except OSError:
+                            continue
+                        items.append((rel, "inode-of", owner.get(ino)))
     items.append(("clock", lab.time))
     return hashlib.blake2b(repr(items).encode(), digest_size=12).hexdigest()
 
